@@ -9,13 +9,13 @@ checks, na = [], []
 TECH = {
  "C01": "static analysis (custom MIR rules): impl enumeration, who-may-call on rustls assertion()/verifier builders, must-pass-through + value-origin dataflow on verifier bodies, constant evaluation of algorithm tables, who-may-construct PeerId/Connection, closed-world who-may-write on request/response extensions",
  "C02": "static analysis (custom MIR rules): who-may-call on quinn stream opens, value-origin dataflow (same stream halves), dominance/cycle checks (single dispatch, no retry loop), type-shape ownership, sibling path-event words of the four codecs, who-may-mutate message content on the transport path (mutators classified from method signatures), pure-delegation shape of the SendStream AsyncWrite impl",
- "C03": "static analysis (custom MIR rules): decision words of the dial task, value-origin dataflow of the expected id into the rustls verifier, path-event language of verify_server_cert and wire::handshake, who-may-call registration, dominance (register before reply), must-pass-through registration in add_peer, certificate-to-PeerId origin (leaf certificate)",
- "C04": "static analysis (custom MIR rules): who-may-write the peer map / who-may-call event emission and the write lock, path-event language of the three mutators (exact word sets), value-origin dataflow of keys and event payloads, lock-acquisition multiplicity on the inlined view of subscribe()",
- "C05": "static analysis (custom MIR rules): decision-table extraction from the tie-break CFG + exhaustive enumeration of the 8 abstract order cases, value-origin dataflow of call arguments and origin tags, must-pass-through registration (no shortcut around the tie-break), stable-id guard words of the loser's clean-up",
+ "C03": "static analysis (custom MIR rules): decision words of the dial task, value-origin dataflow of the expected id into the rustls verifier, path-event language of verify_server_cert and wire::handshake, who-may-call registration, dominance (register before reply), must-pass-through registration in add_peer, certificate-to-PeerId origin (leaf certificate), path-event words of add() (an Ok reply implies an entry)",
+ "C04": "static analysis (custom MIR rules): who-may-write the peer map / who-may-call event emission and the write lock, path-event language of the three mutators (exact word sets), value-origin dataflow of keys and event payloads, lock-acquisition multiplicity on the inlined view of subscribe(), must-pass-through of the handler-exit removal",
+ "C05": "static analysis (custom MIR rules): decision-table extraction from the tie-break CFG + exhaustive enumeration of the 8 abstract order cases, value-origin dataflow of call arguments and origin tags, must-pass-through registration (no shortcut around the tie-break), stable-id guard words of the loser's clean-up, who-may-call on dial_peer (closed set of dial sources)",
  "C06": "static analysis (custom MIR rules): call-graph panic-site inventory from remote-driven entry points with re-checked justifications, tokio::select! arm words (sticky error values leave the loop), who-may-call close()",
  "C07": "static analysis (custom MIR rules): byte-map reconstruction of the preamble writer, edge-guarded reader words, constant/callee checks on the frame codec, sibling path-event words of encoder/decoder, closed decision tables for Version/StatusCode, type shape of raw headers",
- "C08": "static analysis (custom MIR rules): dominance order of teardown steps, tokio::select! arm words (sticky terminal values), API error-propagation dataflow, type-shape ownership, call-graph panic-site inventory, ms-unit discipline of Config accessors, ownership liveness across suspension points (strong peer map / service clones held at a yield)",
- "C09": "static analysis (custom MIR rules): value-origin dataflow (disconnect reason, transport config on every ClientConfig site), RAII liveness of a rejected connection, must-pass-through at handler exit, decision table of from_quinn_error",
+ "C08": "static analysis (custom MIR rules): dominance order of teardown steps, tokio::select! arm words (sticky terminal values), API error-propagation dataflow, type-shape ownership, call-graph panic-site inventory, ms-unit discipline of Config accessors, ownership liveness across suspension points (strong peer map / service clones held at a yield), closed-world who-may-call on task spawning",
+ "C09": "static analysis (custom MIR rules): value-origin dataflow (disconnect reason, transport config on every ClientConfig site), RAII liveness of a rejected connection, must-pass-through at handler exit, decision table of from_quinn_error, path-event words of the tie-break (loser closed explicitly)",
  "C10": "static analysis (custom MIR rules): decision-table extraction of inbound admission (affinity x limit x len>=limit normalised over operator forms), value-origin dataflow of key/len/limit, who-may-call the limit accessor (predicate helpers inlined into the path words)",
  "C11": "static analysis (custom MIR rules): decision-table extraction of min(header, default) in both directions (call- and comparison-form, 3-case evaluation), sibling agreement, poll path words, layer wiring by value-origin + resolved generic arguments, ms-unit discipline",
  "C12": "static analysis (custom MIR rules): must-pass-through in Drop, who-may-construct the stream wrapper, call-graph reachability (no spawn on the caller path), tokio::select! race arm words, JoinSet shutdown on all exits, watched-suspension-point rule over the request task's yields",
